@@ -36,6 +36,12 @@ pub fn marginfi_id() -> Pubkey {
 pub fn solend_id() -> Pubkey {
     solend_mocks::ID
 }
+pub fn kamino_id() -> Pubkey {
+    kamino_mocks::ID
+}
+pub fn drift_id() -> Pubkey {
+    drift_mocks::ID
+}
 pub fn ix_sysvar_id() -> Pubkey {
     sysvar::instructions::ID
 }
@@ -254,6 +260,8 @@ struct ExecCtx {
     cpis: Vec<CpiRecord>,
     /// accounts handed writable to a CPI of the program that owns them
     cpi_touched: BTreeSet<Pubkey>,
+    /// token accounts moved by the token program on behalf of a venue stub (nested CPI)
+    nested_touched: BTreeSet<Pubkey>,
     runtime_violation: Option<String>,
     injected_fired: bool,
 }
@@ -438,8 +446,17 @@ fn cpi_dispatch(
             c.caller_program = caller;
         });
         r
-    } else if pid == solend_id() {
-        solend_stub(&callee_infos, &instruction.data)
+    } else if crate::venues::is_venue(&pid) {
+        with_ctx(|c| {
+            c.stack_height += 1;
+            c.caller_program = pid;
+        });
+        let r = crate::venues::dispatch(&pid, &callee_infos, &instruction.data);
+        with_ctx(|c| {
+            c.stack_height -= 1;
+            c.caller_program = caller;
+        });
+        r
     } else {
         Err(ProgramError::Custom(ERR_UNKNOWN_PROGRAM))
     };
@@ -460,7 +477,8 @@ fn cpi_dispatch(
             if !*w && (changed_data || changed_owner || l1 != *l0) {
                 bad = Some("callee modified read-only account");
             }
-            if pid != system_id() {
+            let nested = with_ctx(|c| c.nested_touched.contains(k));
+            if pid != system_id() && !nested {
                 if (changed_data || changed_owner) && *o0 != pid {
                     bad = Some("callee modified data of account it does not own");
                 }
@@ -484,52 +502,35 @@ fn cpi_dispatch(
     res
 }
 
-/// Stub of the Solend venue (a third-party program that is not in the repository): only
-/// `deposit_reserve_liquidity_and_obligation_collateral`, and only its book-keeping - the reserve's
-/// available liquidity and collateral supply grow, the obligation's first deposit grows by the
-/// collateral the reserve's own exchange rate yields.  No tokens move (they stay in the marginfi
-/// liquidity vault); everything on the marginfi side of the CPI is real code.
-fn solend_stub(accounts: &[AccountInfo], data: &[u8]) -> ProgramResult {
-    use solend_mocks::state::{SolendMinimalReserve, OBLIGATION_LEN, RESERVE_LEN};
-    if data.len() != 9 || data[0] != solend_mocks::cpi::DEPOSIT_DISCRIMINATOR || accounts.len() < 14 {
-        return Err(ProgramError::InvalidInstructionData);
+/// Token movement on behalf of a venue stub: the real SPL-Token processor, called with the
+/// authority the stub vouches for (a signer it was handed, or the venue's own PDA).  The touched
+/// token accounts are remembered so that the post-invocation rule "a callee may only change data
+/// of accounts it owns" is applied to the venue program itself, not to what the token program did
+/// on its behalf.
+pub fn stub_token_transfer<'a>(source: &AccountInfo<'a>, dest: &AccountInfo<'a>, authority: &AccountInfo<'a>, amount: u64) -> ProgramResult {
+    if *source.owner != spl_token_id() || *dest.owner != spl_token_id() {
+        return Err(ProgramError::IncorrectProgramId);
     }
-    let amount = u64::from_le_bytes(data[1..9].try_into().unwrap());
-    let reserve = &accounts[2];
-    let obligation = &accounts[8];
-    if *reserve.owner != solend_id() || *obligation.owner != solend_id() {
-        return Err(ProgramError::IllegalOwner);
+    let ix = spl_token::instruction::transfer(&spl_token_id(), source.key, dest.key, authority.key, &[], amount)?;
+    let mut s = source.clone();
+    s.is_writable = true;
+    let mut d = dest.clone();
+    d.is_writable = true;
+    let r = spl_token::processor::Processor::process(&spl_token_id(), &[s, d, authority.clone()], &ix.data);
+    if r.is_ok() {
+        with_ctx(|c| {
+            c.nested_touched.insert(*source.key);
+            c.nested_touched.insert(*dest.key);
+            c.cpi_touched.insert(*source.key);
+            c.cpi_touched.insert(*dest.key);
+        });
     }
-    if !accounts[9].is_signer || !accounts[12].is_signer {
-        return Err(ProgramError::MissingRequiredSignature);
-    }
-    let collateral = {
-        let d = reserve.data.borrow();
-        if d.len() != RESERVE_LEN || d[0] != 1 {
-            return Err(ProgramError::InvalidAccountData);
-        }
-        let r: &SolendMinimalReserve = bytemuck::from_bytes(&d[1..RESERVE_LEN]);
-        r.liquidity_to_collateral(amount).map_err(|_| ProgramError::ArithmeticOverflow)?
-    };
-    {
-        let mut d = reserve.data.borrow_mut();
-        let avail = u64::from_le_bytes(d[171..179].try_into().unwrap());
-        let supply = u64::from_le_bytes(d[259..267].try_into().unwrap());
-        let a2 = avail.checked_add(amount).ok_or(ProgramError::ArithmeticOverflow)?;
-        let s2 = supply.checked_add(collateral).ok_or(ProgramError::ArithmeticOverflow)?;
-        d[171..179].copy_from_slice(&a2.to_le_bytes());
-        d[259..267].copy_from_slice(&s2.to_le_bytes());
-    }
-    {
-        let mut d = obligation.data.borrow_mut();
-        if d.len() < OBLIGATION_LEN || d[0] != 1 {
-            return Err(ProgramError::InvalidAccountData);
-        }
-        let dep = u64::from_le_bytes(d[236..244].try_into().unwrap());
-        let d2 = dep.checked_add(collateral).ok_or(ProgramError::ArithmeticOverflow)?;
-        d[236..244].copy_from_slice(&d2.to_le_bytes());
-    }
-    Ok(())
+    r
+}
+
+/// The clock as a venue stub sees it.
+pub fn stub_clock() -> SimClock {
+    with_ctx(|c| c.clock)
 }
 
 fn system_program_stub(accounts: &[AccountInfo], data: &[u8]) -> ProgramResult {
@@ -959,6 +960,7 @@ impl Executor {
                 cur_ix_index: idx,
                 cpis: Vec::new(),
                 cpi_touched: BTreeSet::new(),
+                nested_touched: BTreeSet::new(),
                 runtime_violation: None,
                 injected_fired: false,
             })
